@@ -35,6 +35,30 @@ var commonAssumptions = []string{
 // All lists the claimed properties.
 var All = []*Prop{
 	{
+		ID:    "C01",
+		Rules: []*core.Rule{rules.PanicPayload, rules.ASTDispatch, rules.SelfAssert, rules.NilDesc, rules.Recover, rules.Classifier},
+		Explanation: "Clauses decided: the engine's own ways of producing a non-documented panic are closed. " +
+			"R-PANICPAYLOAD classifies every panic(x) of the module (~500) by the static type of x: a type the boundary classifiers accept (derived from exceptionFromValue's case list, the uncatchableException implementers and compileAST on each run), a Value implementer, a re-panic of a recovered/classified value, a panic made unreachable by a preceding no-return call, or an internal assertion in the audited per-function table; a new string/error panic anywhere else is reported. " +
+			"R-ASTDISPATCH: every type switch over an interface of goja/ast whose default ends in an internal diagnostic covers every concrete ast type implementing the interface (go/types), up to an audited table of node types that the grammar only places in slots handled by the parent. " +
+			"R-SELFASSERT: every unchecked assertion X.self.(*Kind) is justified (built as that kind, previously asserted on a dominating edge, promiseResolve's verified result, or audited). " +
+			"R-NILDESC: optional PropertyDescriptor fields are never dereferenced without a nil test (inter-procedural dereference summary). " +
+			"R-RECOVER/R-CLASSIFIER (see C14): no recover swallows or misclassifies a payload.",
+		Technique:  "panic-operand typing with classifier sets derived from the code, no-return dominance, type-switch exhaustiveness over go/types, justified-assertion and nil-dereference rules with inter-procedural summaries",
+		DesignRef:  "DESIGN.md section 4, C01",
+		NotCovered: "Go runtime panics at arbitrary sites (index out of range, nil dereference other than the descriptor clause, failed assertions on values other than X.self), operand-stack balance of emitted bytecode (e.g. the dummy-mode break/try interaction), parser panics guarded by length precomputation: properties of run-time data",
+	},
+	{
+		ID:    "C10",
+		Rules: []*core.Rule{rules.JobQueue, rules.Latch, rules.Tracker, rules.Boundary},
+		Explanation: "R-JOBQUEUE: Runtime.jobQueue is written only by a tail append in enqueuePromiseJob, the drain loop of leave() (swap, range from the head, one call per element, repeat until empty) and the nil resets; nobody else reads it; triggerPromiseReactions and addReactions do nothing but enqueue reaction jobs (no synchronous resolution). " +
+			"R-LATCH: both resolving functions test the shared alreadyResolved cell, return at once if set, and set it before any call; (*Promise).fulfill/reject are called only from those closures. " +
+			"R-TRACKER: the rejection tracker is told 'reject' only from (*Promise).reject under !handled and 'handle' only from addReactions under !handled, and addReactions marks the promise handled on every path. " +
+			"R-BOUNDARY (see C03): the queue is drained on the normal exit of the outermost call and dropped on an interrupt.",
+		Technique:  "field ownership (who-may-write/read), loop-shape check of the drain loop, who-may-call + dominance for the resolved latch, controlling-condition check for tracker notifications",
+		DesignRef:  "DESIGN.md section 4, C10",
+		NotCovered: "the relative order of reactions across promises and thenable jobs, combinators (all/allSettled/any/race) bookkeeping, nested drains when a Go reaction handler re-enters runWrapped: schedule/history semantics",
+	},
+	{
 		ID:    "C11",
 		Rules: []*core.Rule{rules.Revoked, rules.TrapPost},
 		Explanation: "R-REVOKED ('revoked proxies throw on every operation'): in each of the 41 objectImpl methods declared on proxyObject every dereference of p.target and every call receiving it is dominated by p.checkHandler() (directly or through a helper that always calls it), or by an explicit nil test, or the method is an audited exception; and proxyObject overrides every key-kinded and structural internal method (no silent fallback to baseObject). " +
